@@ -169,6 +169,12 @@ struct Later {
     /// node has a single endpoint.
     #[serde(default)]
     hide: Option<u16>,
+    /// "future" data-version filters of the subscribe request: (selector among the clusters that
+    /// the later changes touch, offset) names the version the cluster will have when the later
+    /// report is assembled (+ offset). Such a filter is stale at priming time and must play no
+    /// role afterwards.
+    #[serde(default)]
+    future_filters: Vec<(u16, i8)>,
 }
 
 #[derive(Debug, Clone, Copy, PartialEq, Eq, Serialize, Deserialize)]
@@ -876,6 +882,10 @@ struct World {
     notes: Vec<String>,
     over_main: OverInfo,
     over_later: OverInfo,
+    /// the data-version filters of the request: the case's own plus the resolved "future" ones
+    dv_filters: Vec<(u16, u32, u32)>,
+    /// clusters whose filter names the version predicted for the time of the later report
+    future_exact: BTreeSet<(u16, u32)>,
 }
 
 #[derive(Debug, Clone, Copy, PartialEq, Eq)]
@@ -1027,9 +1037,48 @@ fn materialize(case: &C14Case) -> World {
         }
         _ => None,
     };
-    let mut w = World { st, emits, later, notes, over_main: OverInfo::default(), over_later: OverInfo::default() };
+    let mut w = World { st, emits, later, notes, over_main: OverInfo::default(), over_later: OverInfo::default(), dv_filters: case.dv_filters.clone(), future_exact: BTreeSet::new() };
     apply_over(case, &mut w);
+    resolve_future_filters(case, &mut w);
     w
+}
+
+/// How often the data version of each cluster instance is bumped by the later changes: once per
+/// `notify_attr_changed` of one of its attributes, once more by `notify_all_changed` (this is how
+/// `InteractionModel::notify_*` drive `Handler::bump_dataver`; all notifications of a case are
+/// executed before the reporter runs).
+fn later_bumps(l: &LaterWorld) -> BTreeMap<(u16, u32), u32> {
+    let mut m: BTreeMap<(u16, u32), u32> = l.st.datavers.keys().map(|k| (*k, u32::from(l.all))).collect();
+    for k in &l.notify {
+        *m.entry((k.0, k.1)).or_insert(0) += 1;
+    }
+    m
+}
+
+fn resolve_future_filters(case: &C14Case, w: &mut World) {
+    let (Some(lc), Some(l)) = (case.later.as_ref(), w.later.as_ref()) else { return };
+    if case.kind != Kind::Report || lc.future_filters.is_empty() {
+        return;
+    }
+    let bumps = later_bumps(l);
+    let touched: Vec<(u16, u32)> = bumps.iter().filter(|(_, n)| **n > 0).map(|(k, _)| *k).collect();
+    let all: Vec<(u16, u32)> = bumps.keys().copied().collect();
+    let cands = if touched.is_empty() { &all } else { &touched };
+    if cands.is_empty() {
+        return;
+    }
+    for (sel, off) in &lc.future_filters {
+        let (ep, cl) = cands[pick(*sel, cands.len())];
+        let v = w.st.datavers[&(ep, cl)].wrapping_add(bumps[&(ep, cl)]).wrapping_add(*off as i32 as u32);
+        // one filter per cluster instance
+        w.dv_filters.retain(|(e, c, _)| !(*e == ep && *c == cl));
+        w.future_exact.remove(&(ep, cl));
+        w.dv_filters.push((ep, cl, v));
+        if *off == 0 && bumps[&(ep, cl)] > 0 {
+            w.future_exact.insert((ep, cl));
+        }
+        w.notes.push(format!("future data-version filter ({ep}, {cl:#x}, {v}): the cluster is bumped {} time(s) by the later changes (offset {off})", bumps[&(ep, cl)]));
+    }
 }
 
 /// Sub-check `oversize`: make the selected values larger than what fits an empty chunk of a read
@@ -1050,7 +1099,7 @@ fn apply_over(case: &C14Case, w: &mut World) {
 }
 
 fn apply_over_inner(case: &C14Case, o: &Over, w: &mut World) {
-    let World { st, emits, later, notes, over_main, over_later } = w;
+    let World { st, emits, later, notes, over_main, over_later, .. } = w;
     let base_values = st.values.clone();
     let in_later = o.later && case.kind == Kind::Report && later.is_some();
     let (st, emits, info, idx0, first_no, gen, dv_plus): (&mut State, &mut Vec<EmitDef>, &mut OverInfo, usize, u64, u32, u32) = match later.as_mut() {
@@ -1189,8 +1238,8 @@ fn node_spec(node: &[EpDef]) -> NodeSpec {
     }
 }
 
-fn read_req(case: &C14Case) -> ReadReq {
-    ReadReq { attrs: case.attrs.clone(), events: case.events.clone(), fabric_filtered: case.fabric_filtered, dataver_filters: case.dv_filters.clone(), event_min: case.event_min }
+fn read_req(case: &C14Case, w: &World) -> ReadReq {
+    ReadReq { attrs: case.attrs.clone(), events: case.events.clone(), fabric_filtered: case.fabric_filtered, dataver_filters: w.dv_filters.clone(), event_min: case.event_min }
 }
 
 // ---------------------------------------------------------------------------------------------
@@ -1203,6 +1252,8 @@ struct Obs {
     /// event numbers the device stored when the request / after the later changes were made
     stored_main: BTreeSet<u64>,
     stored_later: BTreeSet<u64>,
+    /// data version of every cluster instance after the later changes were notified
+    datavers_later: BTreeMap<(u16, u32), u32>,
     emitted: Vec<Result<u64, String>>,
     /// (largest datagram the device sent, number of datagrams of the device)
     max_datagram: usize,
@@ -1266,8 +1317,9 @@ fn run_case(case: &C14Case, w: &World) -> Result<Obs, Case> {
     for (n, e) in w.emits.iter().enumerate() {
         rig.emit_event(e.ep, e.cl, e.ev, e.prio, event_payload(e.size as usize, e.ep, e.ev, n));
     }
-    let req = read_req(case);
+    let req = read_req(case, w);
     let result: RefCell<Option<(ReadOutcome, Vec<ReadOutcome>, BTreeSet<u64>, BTreeSet<u64>)>> = RefCell::new(None);
+    let datavers_later: RefCell<BTreeMap<(u16, u32), u32>> = RefCell::new(BTreeMap::new());
     let sched = match case.sched {
         None => Sched::Fifo,
         Some(s) => Sched::Seeded(s),
@@ -1303,6 +1355,7 @@ fn run_case(case: &C14Case, w: &World) -> Result<Obs, Case> {
             }
             rig.flush().await;
             stored_later = rig.stored_event_numbers().into_iter().collect();
+            *datavers_later.borrow_mut() = w.st.datavers.keys().filter_map(|k| node.dataver(k.0, k.1).map(|v| (*k, v))).collect();
             // the first report must come promptly (min interval 0); further ones are collected for
             // a while in case the device splits the changes over several reports
             for i in 0..4 {
@@ -1330,7 +1383,7 @@ fn run_case(case: &C14Case, w: &World) -> Result<Obs, Case> {
     };
     let max_datagram = rig.net.with_tap(|t| t.sent.iter().filter(|s| s.src == 0).map(|s| s.bytes.len()).max().unwrap_or(0));
     let emitted = rig.emitted.borrow().clone();
-    Ok(Obs { main, reports, stored_main, stored_later, emitted, max_datagram, abandoned: ABANDONED.with(|a| a.borrow().clone()) })
+    Ok(Obs { main, reports, stored_main, stored_later, datavers_later: datavers_later.into_inner(), emitted, max_datagram, abandoned: ABANDONED.with(|a| a.borrow().clone()) })
 }
 
 // ---------------------------------------------------------------------------------------------
@@ -1802,7 +1855,7 @@ fn describe(case: &C14Case, w: &World) -> String {
             Value::List(l) => format!("{}/{:#x}/{:#x}:list{:?}", k.0, k.1, k.2, l.iter().map(|i| i.len()).collect::<Vec<_>>()),
         });
     }
-    let mut s = format!("{:?} by {:?}; attribute paths {:?}; event paths {:?}; data-version filters {:?}; event-min {:?}; value sizes [{}]; events {:?}; {}", case.kind, case.who, case.attrs, case.events, case.dv_filters, case.event_min, sizes.join(", "), w.emits.iter().map(|e| e.size).collect::<Vec<_>>(), w.notes.join("; "));
+    let mut s = format!("{:?} by {:?}; attribute paths {:?}; event paths {:?}; data-version filters {:?}; event-min {:?}; value sizes [{}]; events {:?}; {}", case.kind, case.who, case.attrs, case.events, w.dv_filters, case.event_min, sizes.join(", "), w.emits.iter().map(|e| e.size).collect::<Vec<_>>(), w.notes.join("; "));
     if s.len() > 2500 {
         s.truncate(2500);
         s.push_str("...");
@@ -1834,7 +1887,7 @@ fn check(case: &C14Case) -> Case {
         }
     }
     let subscription = case.kind != Kind::Read;
-    let ax = case.attrs.as_ref().map(|p| expect_attrs(&w.st, p, &case.dv_filters, None, 0));
+    let ax = case.attrs.as_ref().map(|p| expect_attrs(&w.st, p, &w.dv_filters, None, 0));
     let ex = case.events.as_ref().map(|p| expect_events(&w.st.node, p, case.event_min, &numbered_main, Some(&obs.stored_main)));
     if obs.stored_main.len() < w.emits.len() {
         stats.label("events:some-evicted-before-the-request");
@@ -1876,7 +1929,7 @@ fn check(case: &C14Case) -> Case {
                     other => return Case::inconclusive(format!("later event {j} could not be emitted: {other:?}")),
                 }
             }
-            let ax = case.attrs.as_ref().map(|p| expect_attrs(&lw.st, p, &case.dv_filters, Some(&lw.changed), 1));
+            let ax = case.attrs.as_ref().map(|p| expect_attrs(&lw.st, p, &w.dv_filters, Some(&lw.changed), 1));
             let ex = case.events.as_ref().map(|p| {
                 // concrete event paths fail in a later report only if their endpoint has disappeared
                 let e = expect_events(&lw.st.node, p, case.event_min, &numbered_later, Some(&obs.stored_later));
@@ -1885,6 +1938,24 @@ fn check(case: &C14Case) -> Case {
                 }
                 e
             });
+            // clusters with a changed, selected attribute whose data-version filter (of the subscribe
+            // request) names exactly the version the cluster has when the later report is assembled
+            let reached: Vec<(u16, u32)> = w
+                .dv_filters
+                .iter()
+                .filter(|(e, c, v)| obs.datavers_later.get(&(*e, *c)) == Some(v) && w.st.datavers.get(&(*e, *c)) != Some(v))
+                .filter(|(e, c, _)| ax.as_ref().is_some_and(|a| a.counts.iter().any(|(k, (min, _))| k.0 == *e && k.1 == *c && *min > 0)))
+                .map(|(e, c, _)| (*e, *c))
+                .collect();
+            if !reached.is_empty() {
+                stats.label("dvfilter:version-reached-by-a-later-change");
+                if w.dv_filters.iter().any(|(e, c, v)| w.st.datavers.get(&(*e, *c)) == Some(v)) {
+                    stats.label("dvfilter:version-reached-by-a-later-change+another-matching-at-priming");
+                }
+            }
+            if w.future_exact.iter().any(|k| !reached.contains(k)) && !w.future_exact.is_empty() {
+                stats.label("dvfilter:future-filter-aimed-but-cluster-has-no-changed-selected-attribute-or-prediction-off");
+            }
             let (mut ax, mut ex) = (ax, ex);
             let over_numbers: BTreeSet<u64> = numbered_later.iter().filter(|(_, _, i)| w.over_later.events.contains(i)).map(|(_, n, _)| *n).collect();
             let over_required = adjust_for_over(&mut ax, &mut ex, &w.over_later, &over_numbers);
@@ -1949,7 +2020,7 @@ fn check(case: &C14Case) -> Case {
         }
     }
     stats.label(format!("chunks:{}", match stats.chunks { 0 => "0", 1 => "1", 2 => "2", 3..=5 => "3-5", 6..=20 => "6-20", _ => ">20" }));
-    if !case.dv_filters.is_empty() {
+    if !w.dv_filters.is_empty() {
         stats.label("with-dataver-filter");
     }
     if case.event_min.is_some() {
@@ -2191,10 +2262,11 @@ fn report_case() -> impl Strategy<Value = C14Case> {
         raw_emits(0..=8),
         pivot(),
         prop_oneof![2 => Just(None), 1 => (any::<u16>(), 1usize..=5).prop_map(Some)],
+        prop_oneof![2 => Just(vec![]), 3 => prop::collection::vec((any::<u16>(), prop_oneof![4 => Just(0i8), 1 => Just(-1i8), 1 => Just(1i8)]), 1..=3)],
     );
-    (node(), raw_req(), later, pivot(), sched(), any::<u32>()).prop_map(|(node, r, (all, changes, raw_later, lpivot, hide), pivot, sched, seed)| {
+    (node(), raw_req(), later, pivot(), sched(), any::<u32>()).prop_map(|(node, r, (all, changes, raw_later, lpivot, hide, future_filters), pivot, sched, seed)| {
         let emits = emit_defs(&node, &raw_later);
-        let later = Later { all, changes, emits, pivot: lpivot, hide: hide.map(|h| h.0) };
+        let later = Later { all, changes, emits, pivot: lpivot, hide: hide.map(|h| h.0), future_filters };
         let mut c = build(node, r, Who::Case, Kind::Report, pivot, Some(later), sched, seed);
         if let Some((sel, k)) = hide {
             // subscribe to k existing concrete events of the endpoint that will disappear
@@ -2310,8 +2382,16 @@ fn sweep_cases(thorough: bool) -> Vec<C14Case> {
             c.event_min = Some(2);
             out.push(c);
             // 6: a later report of a subscription (everything changed, new events)
-            let later = Later { all: true, changes: vec![(0x3000, Some(AttrKind::Scalar(77)))], emits: vec![ev(120, 1), ev(30, 2)], pivot: p, hide: None };
+            let later = Later { all: true, changes: vec![(0x3000, Some(AttrKind::Scalar(77)))], emits: vec![ev(120, 1), ev(30, 2)], pivot: p, hide: None, future_filters: vec![] };
             out.push(base(Kind::Report, Who::Case, Some(vec![all]), Some(vec![all]), emits[..2].to_vec(), None, Some(later)));
+            // 10: shape 6 with "future" data-version filters: two clusters are named with the version
+            // they reach through the later changes, the third with its version at priming time
+            if sel == 0xffff {
+                let later = Later { all: true, changes: vec![(0x3000, Some(AttrKind::Scalar(77))), (0xf000, None)], emits: vec![ev(120, 1)], pivot: p, hide: None, future_filters: vec![(0x0000, 0), (0xffff, 0)] };
+                let mut c = base(Kind::Report, Who::Case, Some(vec![all]), Some(vec![all]), emits[..2].to_vec(), None, Some(later));
+                c.dv_filters = vec![(0, 0x0300, 70_000)];
+                out.push(c);
+            }
             // 7: attributes followed by an (empty) event report array
             out.push(base(Kind::Read, Who::Case, Some(vec![all]), Some(vec![all]), vec![], p, None));
             // 8: attribute reports ending delta octets from the boundary, followed by the statuses
@@ -2330,7 +2410,7 @@ fn sweep_cases(thorough: bool) -> Vec<C14Case> {
                     // changes, the k concrete event paths pointing to it fail from then on
                     let mut evp = vec![Path::concrete(1, 0x06, 0); k];
                     evp.insert(k / 2, all);
-                    let later = Later { all: true, changes: vec![], emits: vec![], pivot: p, hide: Some(0xffff) };
+                    let later = Later { all: true, changes: vec![], emits: vec![], pivot: p, hide: Some(0xffff), future_filters: vec![] };
                     out.push(base(Kind::Report, Who::Case, Some(vec![all]), Some(evp), vec![], None, Some(later)));
                 }
             }
